@@ -452,7 +452,9 @@ impl BState {
         let d = self.cfg.drift_ppb;
         let t0 = self.cfg.t0_ns as i128;
         if let CallResult::Panicked(m) = &res {
-            self.out.violate(&["C14"], "client_call_panicked", "panic".into(), format!("client call (kind {kind}) panicked: {m}; record {known:?}"));
+            // (the simulator builds with overflow checks: an arithmetic wrap that would silently corrupt the
+            // interval in a release build surfaces here as a panic, hence C05 as well)
+            self.out.violate(&["C14", "C05"], "client_call_panicked", "panic".into(), format!("client call (kind {kind}) panicked: {m}; record {known:?}"));
             return;
         }
         // clock readings of this call
@@ -679,7 +681,8 @@ impl BState {
                 let half = (latest - earliest) / 2;
                 if (half - want_half).abs() > 1 {
                     v.push((
-                        vec!["C05"],
+                        // inside the blur window the age must be treated as zero (C14)
+                        if mono < as_of { vec!["C05", "C14"] } else { vec!["C05"] },
                         "half_width",
                         format!("dir={} age0={}", if half < want_half { "narrow" } else { "wide" }, age == 0),
                         format!("half-width {half} ns, the growth law gives {want_half} ns (bound {} drift {} ppb age {age} ns)", rec.bound, rec.drift),
@@ -968,6 +971,16 @@ impl Observer for BObserver {
                             reserved: g(9) as u32,
                             status: g(10) as u32 as i32,
                         };
+                        // C17 (layout): what a third-party reader decodes from the file with the
+                        // offsets of PROTOCOL.md must be this record, under a conforming header
+                        let bytes = pread_fd(v.seg_fd(seg), P_TOTAL);
+                        let doc = decode_segment(&bytes);
+                        if bytes.len() >= P_TOTAL {
+                            s.out.probe("judged.daemon_file_decoded_per_protocol_md");
+                            if doc.rec != rec || doc.magic0 != P_MAGIC0 || doc.magic1 != P_MAGIC1 || doc.version == 0 || doc.generation as u64 != ev.b || (doc.segsize as usize) < P_TOTAL || !(0..=2).contains(&doc.rec.status) {
+                                s.out.violate(&["C17"], "daemon_file_layout", "layout".into(), format!("file bytes decoded per PROTOCOL.md give {doc:?}, the daemon published {rec:?} with generation {}", ev.b));
+                            }
+                        }
                         s.on_publication(di, rec, now);
                     }
                     s.daemons[di].w_gen_odd = odd;
